@@ -18,13 +18,16 @@ def result_buffer(body):
     raise AnchorMissing("%s: the result is not a single moved buffer" % body.name)
 
 
+_DB = [None]
+
+
 def arg_roles(body, a):
     """(param names reached, literal strings in the slice, waypoint callee short names)"""
     sl = flow.backward(body, a)
     params = set()
     for l, pr in sl.params:
         params.add(body.local_name(l) or "_%d" % l)
-    lits = {c["v"] for c in sl.consts if c.get("c") in ("str", "bstr")}
+    lits = flow.slice_literals(_DB[0], body, sl) if _DB[0] is not None else {c["v"] for c in sl.consts if c.get("c") in ("str", "bstr")}
     items = {short(c["def"]) for c in sl.consts if c.get("c") == "item"}
     way = {short(callee_def(t)) for _, t, _ in sl.calls}
     return params, lits | items, way
@@ -67,6 +70,7 @@ def match_event(body, ev, exp):
 
 
 def check_layout(chk, db, rule, fn, expected, alt_tail=()):
+    _DB[0] = db
     b = db.body(fn)
     if b is None:
         chk.anchor_missing(rule, "builder %s not found" % fn)
@@ -225,6 +229,7 @@ def rule_hmac_chain(chk, db):
 
 
 def rule_r6_v2(chk, db):
+    _DB[0] = db
     b = db.body(M2 + "create_string_to_sign")
     if b is None:
         raise AnchorMissing("sig_v2 create_string_to_sign not found")
@@ -255,8 +260,12 @@ def rule_r6_v2(chk, db):
             p |= p2
             l |= l2
             w |= w2
-        if {"date", "x-amz-date"} <= l and "headers" in p:
-            date_ok = True
+        if "date" in l and "headers" in p:
+            # "if you include the x-amz-date header, use the empty string for the Date": the operand also has the "" definition,
+            # selected by get_unique("x-amz-date").is_some()
+            xad = [1 for b2, t2 in b.calls() if short(callee_def(t2)) == "get_unique" and paths.str_args(b, t2) == ["x-amz-date"]]
+            if "" in l and xad:
+                date_ok = True
         if "Expires" in l and "qs" in p:
             exp_ok = True
     if not date_ok:
